@@ -1607,7 +1607,8 @@ def stream_users(X):
     J = function.jacobian(geom)
     energy = domain.integral((function.grad(u, geom)**2).sum(-1) * J + u**2 * J - 2 * u * J, degree=2)
     sqr = domain.boundary['left'].integral(u**2 * function.jacobian(geom, 0), degree=2)
-    cons = solver.System(sqr, trial='u').solve_constraints(droptol=1e-10)
+    with treelog.set(Recorder()):
+        cons = solver.System(sqr, trial='u').solve_constraints(droptol=1e-10)
     users = [('System.solve_constraints', lambda: solver.System(sqr, trial='u').solve_constraints(droptol=1e-10)),
              ('System.solve', lambda: solver.System(energy, trial='u').solve(constrain=cons)),
              ('_with_solve.solve_withinfo', lambda: solver.newton('u', residual=energy.derivative('u'), constrain=cons['u']).solve_withinfo(1e-8))]
